@@ -143,6 +143,7 @@ func build(c *vlib.Ctx, shape string) *scen {
 		s.tamper["fee-shift"] = func() bool { t.SiacoinOutputs[0].Value, t.MinerFees[0] = cur(1999), cur(11); return true }
 		s.tamper["arb"] = func() bool { t.ArbitraryData[0][3] ^= 1; return true }
 		s.tamper["uncovered-out"] = func() bool { t.SiacoinOutputs[1].Address = addrC; return true }
+		s.tamper["second-out"] = func() bool { t.SiacoinOutputs[1].Address = addrC; return true }
 		s.tamper["sig-flip"] = func() bool { t.Signatures[0].Signature[9] ^= 4; return true }
 		s.tamper["sig-drop"] = func() bool { t.Signatures = t.Signatures[:len(t.Signatures)-1]; return true }
 		s.tamper["sig-extra"] = func() bool { t.Signatures = append(t.Signatures, t.Signatures[0]); return true }
@@ -151,6 +152,14 @@ func build(c *vlib.Ctx, shape string) *scen {
 				return false
 			}
 			t.Signatures[0].Signature, t.Signatures[1].Signature = t.Signatures[1].Signature, t.Signatures[0].Signature
+			return true
+		}
+		s.tamper["sig-dup-key"] = func() bool { // the first key signs a second time instead of the second key
+			if len(t.Signatures) < 2 {
+				return false
+			}
+			t.Signatures[1].PublicKeyIndex = t.Signatures[0].PublicKeyIndex
+			signV1(sim, t, map[int]types.PrivateKey{0: keys[0], 1: keys[0]})
 			return true
 		}
 		s.tamper["other-policy"] = func() bool {
@@ -252,6 +261,8 @@ func build(c *vlib.Ctx, shape string) *scen {
 	case "v1partial":
 		v1pay(2, k.UC("A"), []types.TransactionSignature{{CoveredFields: types.CoveredFields{SiacoinInputs: []uint64{0}, SiacoinOutputs: []uint64{0}, MinerFees: []uint64{0}}}}, map[int]types.PrivateKey{0: k.SK("A")})
 		// moving a hasting between outputs 0 and 1 touches covered output 0; the fee shift touches covered output 0 and the covered fee
+	case "v1partial1":
+		v1pay(2, k.UC("A"), []types.TransactionSignature{{CoveredFields: types.CoveredFields{SiacoinInputs: []uint64{0}, SiacoinOutputs: []uint64{1}, MinerFees: []uint64{0}}}}, map[int]types.PrivateKey{0: k.SK("A")})
 	case "v1multisig":
 		v1pay(3, k.CustomUC["MS"], []types.TransactionSignature{whole(types.Hash256{}), {PublicKeyIndex: 1, CoveredFields: types.CoveredFields{WholeTransaction: true}}},
 			map[int]types.PrivateKey{0: k.SK("A"), 1: k.SK("B")})
